@@ -6,8 +6,18 @@
 //! Family `launchseq`: `build()` is an operation *inside* the call sequence of the non-consuming builders (`B` on the
 //! LaunchBuilder, `b` on a ProcessBuilder); every built `Launch` — not only the last — is written to its own file and decoded on
 //! its own, the observation is the list of documents joined by ` || `.
+//! Family `layerfile`: layers are constructed through the PUBLIC layer APIs (`BuildContext::{cached_layer, uncached_layer}` +
+//! `LayerRef::write_metadata`, trait API `BuildContext::handle_layer`) in one layers directory; then, for every layer name used,
+//! the file at the path the CNB spec gives for that layer — `<layers>/<name>.toml` — is handed to the independent reader
+//! (one document per distinct name, in order of first use, joined by ` || `), and the layers directory is listed: every entry that
+//! is neither `<name>` nor `<name>.toml` of a constructed layer is reported in the suffix ` ;; stray=<hex names|->`.
+#![allow(deprecated)]
+use cnbv::ctx::{TbError, TestBuildpack, build_context};
 use cnbv::tomlwire::{V, from_wire, to_wire};
 use cnbv::*;
+use libcnb::build::BuildContext;
+use libcnb::data::layer::LayerName;
+use libcnb::layer::{CachedLayerDefinition, ExistingLayerStrategy, InvalidMetadataAction, Layer, LayerData, LayerResult, LayerResultBuilder, RestoredLayerAction, UncachedLayerDefinition};
 use libcnb::data::build_plan::{BuildPlanBuilder, Require};
 use libcnb::data::exec_d::{ExecDProgramOutput, ExecDProgramOutputKey};
 use libcnb::data::generic::GenericMetadata;
@@ -247,6 +257,76 @@ fn launch_session(ops: &str) -> Vec<Launch> {
     built
 }
 
+// ---------------------------------------------------------------- layers through the public layer APIs (family `layerfile`)
+/// trait-API layer whose `create` / `update` return the given metadata (an existing layer is updated)
+struct DataLayer { types: LayerTypes, metadata: GenericMetadata }
+impl Layer for DataLayer {
+    type Buildpack = TestBuildpack;
+    type Metadata = GenericMetadata;
+    fn types(&self) -> LayerTypes { self.types }
+    fn create(&mut self, _c: &BuildContext<TestBuildpack>, _p: &Path) -> Result<LayerResult<GenericMetadata>, TbError> { LayerResultBuilder::new(self.metadata.clone()).build() }
+    fn existing_layer_strategy(&mut self, _c: &BuildContext<TestBuildpack>, _d: &LayerData<GenericMetadata>) -> Result<ExistingLayerStrategy, TbError> { Ok(ExistingLayerStrategy::Update) }
+    fn update(&mut self, _c: &BuildContext<TestBuildpack>, _d: &LayerData<GenericMetadata>) -> Result<LayerResult<GenericMetadata>, TbError> { LayerResultBuilder::new(self.metadata.clone()).build() }
+}
+
+/// `ops`: `<api>~<x name>~<launch build cache bits>~<metadata table|->` joined by `|`, all in ONE layers directory.
+/// `c`: `cached_layer` (restored layer kept) then `write_metadata(table)` if a table is given; `u`: `uncached_layer` + the same;
+/// `t`: trait API `handle_layer`, `create` / `update` returning the metadata (`-`: `None`).
+/// Copies `<layers>/<name>.toml` of every distinct name (order of first use) to `path_of(k)`; returns the own-reader flags and the stray entries.
+fn layerfile_case(ops: &str, path_of: &dyn Fn(usize) -> PathBuf) -> Result<(Vec<String>, String), String> {
+    let tmp = tempfile::tempdir().expect("tempdir");
+    let layers = tmp.path().join("layers");
+    std::fs::create_dir(&layers).expect("layers dir");
+    let ctx = build_context(&layers, tmp.path());
+    // what was constructed, per name (harness-side bookkeeping for the own-reader flag only; the verdict is the specification's)
+    let mut constructed: Vec<(String, LayerContentMetadata<GenericMetadata>)> = vec![];
+    for (k, op) in split_list(ops, "|").iter().enumerate() {
+        let p: Vec<&str> = op.split('~').collect();
+        assert!(p.len() == 4 && p[2].len() == 3, "layer op");
+        let name_s = ux(p[1]);
+        let name: LayerName = name_s.parse().expect("layer name");
+        let b: Vec<bool> = p[2].chars().map(|c| c == '1').collect();
+        let types = LayerTypes { launch: b[0], build: b[1], cache: b[2] };
+        let md: GenericMetadata = if p[3] == "-" { None } else { Some(table_of(p[3])) };
+        let before = constructed.iter().position(|(n, _)| *n == name_s);
+        let fail = |what: &str| format!("err:op{}:{what}", k + 1);
+        let now: LayerContentMetadata<GenericMetadata> = match p[0] {
+            "c" => {
+                assert!(types.cache, "cached_layer is cache = true");
+                let r = ctx.cached_layer(&name, CachedLayerDefinition { build: types.build, launch: types.launch,
+                    invalid_metadata_action: &|_| InvalidMetadataAction::DeleteLayer, restored_layer_action: &|_: &GenericMetadata, _| RestoredLayerAction::KeepLayer }).map_err(|_| fail("cached_layer"))?;
+                if let Some(t) = &md { r.write_metadata(t.clone()).map_err(|_| fail("write_metadata"))?; }
+                LayerContentMetadata { types: Some(types), metadata: md.or_else(|| before.and_then(|i| constructed[i].1.metadata.clone())) }
+            }
+            "u" => {
+                assert!(!types.cache, "uncached_layer is cache = false");
+                let r = ctx.uncached_layer(&name, UncachedLayerDefinition { build: types.build, launch: types.launch }).map_err(|_| fail("uncached_layer"))?;
+                if let Some(t) = &md { r.write_metadata(t.clone()).map_err(|_| fail("write_metadata"))?; }
+                LayerContentMetadata { types: Some(types), metadata: md }
+            }
+            "t" => {
+                ctx.handle_layer(name.clone(), DataLayer { types, metadata: md.clone() }).map_err(|_| fail("handle_layer"))?;
+                LayerContentMetadata { types: Some(types), metadata: md }
+            }
+            _ => panic!("layer api"),
+        };
+        match before { Some(i) => constructed[i].1 = now, None => constructed.push((name_s, now)) }
+    }
+    let mut rts = vec![];
+    for (k, (name, want)) in constructed.iter().enumerate() {
+        // the path the CNB spec gives for the layer's content metadata
+        let spec_path = layers.join(format!("{name}.toml"));
+        if std::fs::symlink_metadata(&spec_path).map(|m| m.is_file()).unwrap_or(false) {
+            std::fs::copy(&spec_path, path_of(k)).expect("copy");
+            rts.push(match read_toml_file::<LayerContentMetadata<GenericMetadata>>(&spec_path) { Ok(back) => u8::from(back == *want && layer_v(&back).render() == layer_v(want).render()).to_string(), Err(_) => "0".into() });
+        } else { rts.push("0".into()); }
+    }
+    let mut stray: Vec<String> = std::fs::read_dir(&layers).expect("list").map(|e| e.expect("entry").file_name().to_string_lossy().into_owned())
+        .filter(|e| !constructed.iter().any(|(n, _)| e == n || *e == format!("{n}.toml"))).map(|e| hex(e.as_bytes())).collect();
+    stray.sort();
+    Ok((rts, join(",", &stray)))
+}
+
 fn execd_helper(pairs: &str) {
     let v: Vec<(ExecDProgramOutputKey, String)> = split_list(pairs, ",").iter().map(|kv| { let (k, v) = kv.split_once('=').unwrap(); (ux(k).parse::<ExecDProgramOutputKey>().expect("key"), ux(v)) }).collect();
     libcnb::exec_d::write_exec_d_program_output(ExecDProgramOutput::from(v));
@@ -318,7 +398,8 @@ const PRES: &[&str] = &["garbage", "longer", "same", "shorter", "empty"];
 fn generate(tier: &str, seed: u64, emit0: &mut dyn FnMut(Case)) {
     let mut rot = 0usize;
     let mut emit = |c: Case| {
-        let is_file = c.fields[0] != "execd";
+        // (the layer files of family `layerfile` are written by the layer APIs into a layers directory of their own: what a path held before is part of the call sequence there)
+        let is_file = c.fields[0] != "execd" && c.fields[0] != "layerfile";
         // the bounded-exhaustive build()-position sequences are written on fresh paths only (the sampled ones over every kind of old file)
         let fresh_only = c.tags.iter().any(|(k, v)| k == "kind" && v.starts_with("launchseq-exh"));
         // the sampled ones: fresh + one kind of old file each, in rotation (every document of the sequence is written over such a file)
@@ -451,6 +532,46 @@ fn generate(tier: &str, seed: u64, emit0: &mut dyn FnMut(Case)) {
         }
         emit(plan_case(&ops, "plan-require-calls"));
     }
+    // ---- layers through the public layer APIs, read at the layer's spec path (family `layerfile`)
+    let apis_types: Vec<(&str, String)> = {
+        let mut v = vec![];
+        for l in 0..2 { for b in 0..2 { v.push(("c", format!("{l}{b}1"))); v.push(("u", format!("{l}{b}0"))); for c in 0..2 { v.push(("t", format!("{l}{b}{c}"))); } } }
+        v
+    };
+    let long_name = format!("{}.{}", "l".repeat(100), "m".repeat(100));
+    let mut names: Vec<&str> = LAYER_NAMES.to_vec();
+    names.push(&long_name);
+    let md1 = to_wire(&Value::Table([("version".to_string(), Value::String("3.11.4".into())), ("n".to_string(), Value::Integer(1))].into_iter().collect()));
+    let md2 = to_wire(&Value::Table([("other".to_string(), Value::Array(vec![Value::String("v".into()), Value::Boolean(true)]))].into_iter().collect()));
+    let lop = |api: &str, name: &str, ty: &str, md: &str| format!("{api}~{}~{ty}~{md}", xs(name));
+    // every name x every API / types combination x metadata none / a table, one layer in the directory
+    for n in &names {
+        for (api, ty) in &apis_types {
+            for md in ["-", md1.as_str()] { emit(layerfile_case_of(&[lop(api, n, ty, md)], "layerfile-exh")); }
+        }
+    }
+    // every ordered pair of names that share a stem / a prefix (and the same name twice: keep / recreate / update), every pair of APIs
+    for a in LAYER_NAMES_CLOSE {
+        for b in LAYER_NAMES_CLOSE {
+            for (api1, ty1) in [("c", "101"), ("u", "010"), ("t", "111")] {
+                for (api2, ty2) in [("c", "011"), ("u", "100"), ("t", "001")] {
+                    emit(layerfile_case_of(&[lop(api1, a, ty1, &md1), lop(api2, b, ty2, if api2 == "c" { "-" } else { md2.as_str() })], "layerfile-pair"));
+                }
+            }
+        }
+    }
+    for i in 0..(if thorough { 6_000 } else { 400 }) {
+        let mut r = Rng::for_case(seed ^ 0x1a7e_f11e, i);
+        // mostly from a few close names so that one directory holds layers whose names extend one another
+        let close = r.chance(2, 3);
+        let ops: Vec<String> = (0..r.range(1, 5)).map(|_| {
+            let n = if close { *r.pick(LAYER_NAMES_CLOSE) } else { *r.pick(&names) };
+            let (api, ty) = r.pick(&apis_types).clone();
+            let md = if r.chance(2, 5) { "-".to_string() } else { to_wire(&Value::Table(rtable(&mut r, 0))) };
+            lop(api, n, &ty, &md)
+        }).collect();
+        emit(layerfile_case_of(&ops, "layerfile"));
+    }
     // ---- build() as an operation inside the call sequence (non-consuming builders: LaunchBuilder `B`, ProcessBuilder `b`).
     // BuildPlanBuilder::build(self) consumes the builder (and it is not Clone), so no call can follow its build(): nothing to enumerate there.
     let x = |s: &str| xs(s);
@@ -512,6 +633,29 @@ fn generate(tier: &str, seed: u64, emit0: &mut dyn FnMut(Case)) {
     }
 }
 
+/// layer names (all valid `LayerName`s that are single path components): dot-free, dotted at every position, several dots, names that
+/// extend one another at a dot, a `.toml` ending, space and punctuation, Unicode; a 201-byte dotted name is added by the generator
+const LAYER_NAMES: &[&str] = &["plain", "python3", "python3.11", "python3.12", "a", "a.b", "a.b.c", "node.js", "trailing.", ".leading", "..two", "a..b", "a.b.c.d.e", "v1.2.3-rc.1",
+    "x.toml", "x.tar.gz", "Abc 123.-_!", "ünï.cödé", "日本.語", "build.x", "no-dot_here"];
+/// names whose text extends another one's at a dot: they share the directory in the pair / sampled cases
+const LAYER_NAMES_CLOSE: &[&str] = &["python3", "python3.11", "python3.12", "a", "a.b", "a.b.c"];
+
+/// a `layerfile` case (always non-trivial: at least one layer is constructed)
+fn layerfile_case_of(ops: &[String], kind: &str) -> Case {
+    let names: Vec<String> = ops.iter().map(|o| ux(o.split('~').nth(1).unwrap())).collect();
+    let mut distinct = names.clone(); distinct.sort(); distinct.dedup();
+    let dotted = names.iter().any(|n| n.contains('.'));
+    // one name is another one's text up to a dot (python3 / python3.11), or two names agree up to their last dot (python3.11 / python3.12)
+    let stem = |n: &str| n.rsplit_once('.').map(|(s, _)| s.to_string());
+    let same_stem = distinct.iter().any(|a| distinct.iter().any(|b| a != b && (stem(b).as_deref() == Some(a.as_str()) || (stem(a).is_some() && stem(a) == stem(b)))));
+    let mut apis: Vec<&str> = ops.iter().map(|o| &o[..1]).collect(); apis.sort(); apis.dedup();
+    let mut kinds = std::collections::BTreeSet::new();
+    for o in ops { let m = o.rsplit('~').next().unwrap(); if m != "-" { kinds_in(&Value::Table(table_of(m)), &mut kinds); } }
+    case(vec!["layerfile".into(), join("|", ops)], kind,
+        vec![("ops", ops.len().to_string()), ("names", distinct.len().to_string()), ("dotted_name", u8::from(dotted).to_string()), ("names_share_stem", u8::from(same_stem).to_string()),
+             ("repeated_name", u8::from(distinct.len() < names.len()).to_string()), ("apis", apis.join("+")), ("value_kinds", kinds.into_iter().collect::<Vec<_>>().join("+"))], true)
+}
+
 /// a `launchseq` case; non-trivial = at least one configuring call and at least one build() besides the final ones (`B`, or `b` in a ProcessBuilder)
 fn seq_case(ops: &[String], kind: &str) -> Case {
     let nb = ops.iter().filter(|o| *o == "B").count();
@@ -532,11 +676,21 @@ fn run_batch(cases: &[Case]) -> Vec<String> {
     let dir = tempfile::tempdir().expect("tempdir");
     std::panic::set_hook(Box::new(|_| {}));
     let mut pre: Vec<Result<Vec<String>, String>> = vec![];
+    // family `layerfile`: what follows the documents (` ;; stray=…`)
+    let mut suffix: Vec<String> = vec![String::new(); cases.len()];
     // document k of case i is written to <i>-<k>.toml
     let name = |i: usize, k: usize| format!("{i:08}-{k:03}.toml");
     for (i, c) in cases.iter().enumerate() {
         let f = c.fields.clone();
         let path_of = |k: usize| dir.path().join(name(i, k));
+        if f[0] == "layerfile" {
+            pre.push(match std::panic::catch_unwind(std::panic::AssertUnwindSafe(|| layerfile_case(&f[1], &path_of))) {
+                Ok(Ok((rts, stray))) => { suffix[i] = format!(" ;; stray={stray}"); Ok(rts) }
+                Ok(Err(e)) => Err(e),
+                Err(_) => { let mut k = 0; while std::fs::remove_file(path_of(k)).is_ok() { k += 1; } Err("PANIC".to_string()) }
+            });
+            continue;
+        }
         pre.push(match std::panic::catch_unwind(std::panic::AssertUnwindSafe(|| write_case(&f, &path_of))) {
             Ok(rt) => Ok(rt),
             Err(_) => { let mut k = 0; while std::fs::remove_file(path_of(k)).is_ok() { k += 1; } Err("PANIC".to_string()) }
@@ -551,7 +705,7 @@ fn run_batch(cases: &[Case]) -> Vec<String> {
         Err(e) => e,
         Ok(rts) => rts.iter().enumerate().map(|(k, rt)| match trees.get(&name(i, k)) {
             Some(t) if t.starts_with("invalid-") => t.clone(), Some(t) => format!("{t};rt={rt}"), None => "no-file-written".to_string(),
-        }).collect::<Vec<_>>().join(" || "),
+        }).collect::<Vec<_>>().join(" || ") + &suffix[i],
     }).collect()
 }
 
